@@ -50,6 +50,7 @@ def _retype_for_coercion(rng, fs, col, numeric_only=False):
         # fail, which is a legitimate rejection
         if rng.random() < 0.3:
             col["phys"], col["values"] = "int64", [len(v) for v in vals]
+            return "inexact:str_from_int"
     elif d == "datetime" and all(v is not None for v in vals):
         col["phys"], col["values"] = "object", list(vals)
     elif d == "bool":
@@ -64,7 +65,8 @@ def add_parse_options(rng, spec, table, *, neutral=False, allow_drop=True):
         col = table["columns"][0]
         if rng.random() < 0.6:
             fs["coerce"] = True
-            _retype_for_coercion(rng, fs, col)
+            if _retype_for_coercion(rng, fs, col):
+                opts.append("inexact:str_from_int")
             opts.append("coerce")
         if fs["dtype"] in ("float64", "str", "datetime") and rng.random() < 0.4 and col["values"]:
             ok = G.satisfying(fs)
@@ -76,7 +78,8 @@ def add_parse_options(rng, spec, table, *, neutral=False, allow_drop=True):
             for ifs, lev in zip(spec["index"], table["index"]["levels"]):
                 ifs["coerce"] = True
                 if rng.random() < 0.7:
-                    _retype_for_coercion(rng, ifs, lev)
+                    if _retype_for_coercion(rng, ifs, lev):
+                        opts.append("inexact:str_from_int")
             opts.append("index_coerce")
         if allow_drop and rng.random() < 0.25:
             spec["drop_invalid_rows"] = True
@@ -99,7 +102,8 @@ def add_parse_options(rng, spec, table, *, neutral=False, allow_drop=True):
                 fs["coerce"] = True
                 opts.append("column_coerce")
             if col is not None and rng.random() < 0.75:
-                _retype_for_coercion(rng, fs, col, numeric_only=neutral)
+                if _retype_for_coercion(rng, fs, col, numeric_only=neutral):
+                    opts.append("inexact:str_from_int")
         if col is not None and fs["dtype"] in ("float64", "str", "datetime") \
                 and rng.random() < 0.3 and col["values"] \
                 and col["phys"] == G.PHYS_OF[fs["dtype"]] and not fs["unique"]:
@@ -111,11 +115,13 @@ def add_parse_options(rng, spec, table, *, neutral=False, allow_drop=True):
         if not neutral and fs["dtype"] in PARSERS and rng.random() < 0.15:
             fs["parser"] = rng.choice(sorted(PARSERS[fs["dtype"]]))
             opts.append("column_parser")
+            opts.append("inexact:parser_changes_values")
     if spec.get("index") and table.get("index") and (spec["coerce"] or rng.random() < 0.4):
         for ifs, lev in zip(spec["index"], table["index"]["levels"]):
             ifs["coerce"] = True
             if rng.random() < 0.7:
-                _retype_for_coercion(rng, ifs, lev)
+                if _retype_for_coercion(rng, ifs, lev):
+                    opts.append("inexact:str_from_int")
         opts.append("index_coerce")
     if rng.random() < 0.3:
         spec["add_missing_columns"] = True
@@ -133,6 +139,10 @@ def add_parse_options(rng, spec, table, *, neutral=False, allow_drop=True):
                 elif how < 0.8:
                     fs["nullable"] = True
                 # else: neither -> ADD_MISSING_COLUMN_NO_DEFAULT expected
+                if fs.get("default") is None and not fs["nullable"]:
+                    opts.append("inexact:no_default_for_missing_column")
+                elif fs.get("default") is None and (fs["unique"] or fs["dtype"] in ("int64", "bool")):
+                    opts.append("inexact:added_all_null_column")
                 table["columns"] = [c for c in table["columns"] if c["name"] != fs["name"]]
                 cols.pop(fs["name"], None)
     if rng.random() < 0.3:
